@@ -136,7 +136,11 @@ func Assert(b bool, msg string) {
 func Reached() {}
 
 // Note records a ghost annotation.
-func Note(s string) {}
+func Note(s string) {
+	if os.Getenv("VERIF_REPLAY") != "" {
+		fmt.Printf("ZZ-NOTE: %q\n", s)
+	}
+}
 
 // Symbolic reports whether the harness runs under gosym.
 func Symbolic() bool { return false }
